@@ -121,9 +121,15 @@ def gen_level(rng):
 
 def gen_uuid(rng):
     r = rng.random()
-    if r < 0.6:
+    if r < 0.5:
         h = "%032x" % rng.getrandbits(128)
         return "-".join([h[:8], h[8:12], h[12:16], h[16:20], h[20:]])
+    if r < 0.6:
+        # ids minted elsewhere (another language's library, a GUID from a request header): UUID-shaped, but not in the spelling
+        # `str(uuid4())` uses - the task uuid is an opaque string and must come through as it is
+        h = "%032x" % rng.getrandbits(128)
+        dashed = "-".join([h[:8], h[8:12], h[12:16], h[16:20], h[20:]])
+        return rng.choice([h, h.upper(), dashed.upper(), "{" + dashed + "}", "urn:uuid:" + dashed, dashed.replace("-", "", 2)])
     if r < 0.9:
         alphabet = [chr(c) for c in range(32, 127) if chr(c) != "@"]
         return "".join(rng.choice(alphabet) for _ in range(rng.randint(0, 12)))
